@@ -115,7 +115,8 @@ def cargo_build(pkg, release=False, timeout=3000, features=None):
         sys.stderr.write(p.stdout.decode(errors="replace")[-6000:])
         raise ToolError("cargo build -p %s failed" % pkg)
     log("[build] %s %.0fs" % (pkg, time.time() - t0))
-    return os.path.join(HARNESS, "target", "release" if release else "debug", pkg)
+    tdir = os.environ.get("CARGO_TARGET_DIR", os.path.join(HARNESS, "target"))
+    return os.path.join(tdir, "release" if release else "debug", pkg)
 
 def run_bin(path, args, timeout=3000, env=None, ok_codes=(0,)):
     e = dict(os.environ)
